@@ -16,7 +16,7 @@ def run(tier, seed):
     if not binp:
         ck.violation("harness-build", {"kind": "build"}, {"log": log[-3000:]}, no_input=True)
         return ck.finish()
-    nx = 40 if tier == "quick" else 700
+    nx = 70 if tier == "quick" else 700
     rc, out = sh([binp, "-seed", str(seed), "-n", str(n), "-nx", str(nx)], timeout=1200)
     lines = jlines(out)
     starts = [x for x in lines if x.get("kind") == "startfail"]
